@@ -140,6 +140,13 @@ def run_property(pid, tier, module, seed=0):
     t0 = time.time()
     from . import loader
     jobs = module.jobs(tier)
+    # conformance pass of the assumed library contracts against the real libraries (bounded; runs beside the jobs)
+    conf_proc = None
+    if os.environ.get("GVC_NO_CONFORM") != "1":
+        env = dict(os.environ, PYTHONPATH=ROOT)
+        env.setdefault("JAX_PLATFORMS", "cpu")
+        conf_proc = subprocess.Popen([PY, "-m", "gvc.native.conform", str(seed)], stdout=subprocess.PIPE, stderr=subprocess.PIPE,
+                                     text=True, cwd=ROOT, env=env)
     results = run_jobs(jobs)
     # load-independence: a job that left something undecided is run once more on a quiet machine (<= 4 workers);
     # a 'proved'/'refuted' answer never depends on the budget, only 'undecided' can, so only those are retried
@@ -175,12 +182,28 @@ def run_property(pid, tier, module, seed=0):
     for c in canaries:
         if c["status"] != "refuted":
             vac_problems.append(f"canary not refuted (engine would prove a false clause): {c['name']}: {c['status']} {c['detail']}")
+    conformance = {"ran": False}
+    if conf_proc is not None:
+        try:
+            so, se = conf_proc.communicate(timeout=900)
+            line = next((l for l in reversed(so.strip().splitlines()) if l.startswith("{")), None)
+            conformance = dict(json.loads(line), ran=True) if line else {"ran": False, "error": se[-500:]}
+        except Exception as ex:
+            conf_proc.kill()
+            conformance = {"ran": False, "error": repr(ex)}
+        if conformance.get("ran") and not conformance.get("ok"):
+            vac_problems.append("an assumed library contract model DISAGREES with the real library (machinery problem, not a "
+                                f"property violation): {conformance.get('failures')}")
+        elif not conformance.get("ran"):
+            vac_problems.append(f"library-contract conformance pass could not run: {conformance.get('error')}")
     baseline = {}
     bp = os.path.join(ROOT, "baseline_obligations.json")
     if os.path.exists(bp):
         baseline = json.load(open(bp))
     expected = baseline.get(pid, {}).get(tier)
     names = sorted(o["name"] for o in counted)
+    os.makedirs(os.path.join(OUT, "obligation_names"), exist_ok=True)
+    json.dump(names, open(os.path.join(OUT, "obligation_names", f"{pid}_{tier}.json"), "w"))
     if expected is not None and sorted(expected) != names:
         missing = sorted(set(expected) - set(names))
         extra = sorted(set(names) - set(expected))
@@ -266,6 +289,7 @@ def run_property(pid, tier, module, seed=0):
         "solver_seconds": round(sum(r["solver_s"] for r in results), 2),
         "solver_unknowns": sum(r["unknowns"] for r in results),
         "jobs_retried_on_quiet_machine": retried,
+        "library_contract_conformance": {k: conformance.get(k) for k in ("ran", "ok", "cases", "models", "failures", "error") if k in conformance},
         "functions_under_contract": module.FUNCTIONS,
         "trusted_base": module.TRUSTED + [f"library contract model: {x}" for x in lib_used],
         "samples": samples,
@@ -304,6 +328,8 @@ def run_property(pid, tier, module, seed=0):
         print(l)
     if violations:
         return 1
+    if conformance.get("ran") and not conformance.get("ok"):
+        return 3
     if errors and not standin:
         return 3
     if (undecided or vac_problems or errors):
